@@ -6,21 +6,24 @@ PROP = {
              "request direction = acyclic graph of 1-5 processors with conditional branches, unlistened outputs, joins, optional fan-out, edges to the stream end; "
              "response direction = 0-3 processors with or without a stream root plus one response connection per answering processor; 0-2 quotas (fixed / concurrent) on the "
              "same URL give system start/end flows; the transaction's request and response headers steer every Filter. The executed processors are read from the H2 events. "
-             "Non-trivial: the executed request path contains a taken and a not-taken branch, or reaches an answering processor. distinct = canonical JSON of the case"),
+             "Non-trivial: the executed request path contains a taken and a not-taken branch, or reaches an answering processor. distinct = canonical JSON of the case. "
+             "Unit TestCrossFlowWalk: a host flow that incorporates a guard flow (1-3 request Filters with conditional exits and an optional answering processor, 1-2 response Filters) in front of its own 1-2 request Filters "
+             "(optional answering processor) and behind its own 1-2 response Filters; non-trivial: the request path crosses from the guard into the host, or is answered"),
     "assumptions": [
         "MockProcessor is unusable (its loader conditions never match its runtime output); Limiter/Queue are covered by C01/C06",
         "fan-out (two connections with the same condition) upstream of an answering processor is accepted under either reading (the answer stops the whole walk / only its branch)",
         "every answering processor has a response connection (without one the statement does not say where the response path continues)",
         "on the response side only the order of the user flow's own processors and the presence of the quota end flow are asserted; the relative order of system flows on responses is not fixed by the statement beyond 'reverse'",
-        "cross-flow references (processor -> flow, flow -> processor) are exercised by C05 for safety only",
+        "cross-flow references are generated in the two documented directions only (request: `from: flow X at end -> to: processor`; response: `from: processor -> to: flow X at start`), with a referenced flow whose own filter never matches the transaction; referencing single processors of another flow (`Other.proc`) and references in the opposite directions are exercised by C05 for safety only",
     ],
     "units": [
         {"pkg": "c04", "test": "TestGraphWalk", "quick": 600, "thorough": 5000, "shards": 16},
+        {"pkg": "c04", "test": "TestCrossFlowWalk", "quick": 400, "thorough": 4000, "shards": 8},
         {"pkg": "c04", "test": "TestRegressionAndWitness", "kind": "plain"},
     ],
     "technique": "property-based testing (rapid) of generated flow graphs through the real loader and executor; oracle = independent reference interpreter of the statement compared with the observed processor event sequence",
     "level_text": ("generated flow graphs are loaded by the real loader and executed by Stream.ExecuteFlow; the sequence of executed processors and outputs (hook H2) must equal the walk an independent interpreter of "
                    "the statement produces - request path, early-response continuation, normal response path - and system flows must bracket the user flow. Search, not proof"),
-    "level_note": "needs hook H2; one user flow per case, so flow-to-flow ordering is not covered here",
+    "level_note": "needs hook H2; one selected user flow per case (plus one incorporated flow in TestCrossFlowWalk), so the order among several selected user flows is not covered here",
     "design_ref": "DESIGN.md section 2, C04",
 }
